@@ -536,6 +536,31 @@ func sliceElems(s *an.PathState, t *an.Term) ([]*an.Term, bool) {
 			}
 		}
 		return out, true
+	case t.Op == "slice" && len(t.Args) == 4 && t.Args[1] == nil && t.Args[2] == nil && t.Args[3] == nil && t.Args[0] != nil && t.Args[0].Op == "alloc":
+		// arr[:] of a local array filled cell by cell
+		al := t.Args[0]
+		n := int64(-1)
+		if al.V != nil {
+			if pt, ok := al.V.Type().Underlying().(*types.Pointer); ok {
+				if at, ok := pt.Elem().Underlying().(*types.Array); ok {
+					n = at.Len()
+				}
+			}
+		}
+		if n < 0 || n > 64 {
+			return nil, false
+		}
+		out := make([]*an.Term, n)
+		for _, e := range s.Events {
+			if e.Kind == "store" && e.Args[0].Op == "indexaddr" && e.Args[0].Args[0].K == al.K {
+				if i, ok := e.Args[0].Args[1].ConstInt(); ok && i >= 0 && i < n {
+					out[i] = e.Args[1]
+				} else {
+					return nil, false
+				}
+			}
+		}
+		return out, true
 	case t.Op == "call" && t.Aux == "builtin append" && len(t.Args) == 2:
 		base, ok := sliceElems(s, t.Args[0])
 		if !ok {
